@@ -83,6 +83,12 @@ def h_equiv(which: int, x: int, y: int, r0: int, r1: int, r2: int, r3: int, r4: 
             prog = PROGS[i]
     if prog is None:
         return True   # rejected by the real checker: nothing is claimed about it here
+    if KIND == "c32":
+        dropped = e4_syntax.silently_dropped_clause(prog.src)
+        if dropped:
+            with NoTracing():
+                LAST_DETAIL = f"ACCEPTED by the real checker although it contains a {dropped}, which checked programs cannot represent:\n{prog.src}"
+            return False
     ok, detail = e4.equivalent(prog, (x, y), [r0, r1, r2, r3, r4, r5, r6, r7], fuel=FUEL, extra=EXTRA)
     if not ok:
         with NoTracing():
